@@ -12,38 +12,41 @@ Definition toks (l : list ptok) : list tok := map ptok_tok l.
 Lemma toks_app a b : toks (a ++ b) = toks a ++ toks b.
 Proof. apply map_app. Qed.
 
-(* [run l a f c i a' f' c' i']: in the state (atCommandStart, sinceFor, sinceCase,
-   inCasePattern) = (a, f, c, i) with no pending io operator, the lexer turns the
-   tokens of l, whatever follows them, into the terminals of l and ends in
-   (a', f', c', i') *)
-Definition run (l : list ptok) (a : bool) (f c : Z) (i : bool) (a' : bool) (f' c' : Z) (i' : bool) : Prop :=
-  forall rest, steps (mkLexer [] (toks l ++ rest) a f c i) (tm l) (mkLexer [] rest a' f' c' i').
+(* [run l a f c i g a' f' c' i' g']: in the state (atCommandStart, sinceFor, sinceCase,
+   inCasePattern, afterAssign) = (a, f, c, i, g) with no pending io operator, the lexer
+   turns the tokens of l, whatever follows them, into the terminals of l and ends in
+   (a', f', c', i', g') *)
+Definition run (l : list ptok) (a : bool) (f c : Z) (i g : bool) (a' : bool) (f' c' : Z) (i' g' : bool) : Prop :=
+  forall rest, steps (mkLx [] (toks l ++ rest) a f c i g) (tm l) (mkLx [] rest a' f' c' i' g').
 
-Lemma run_nil a f c i : run [] a f c i a f c i.
+Lemma run_nil a f c i g : run [] a f c i g a f c i g.
 Proof. intro rest. apply steps_nil. Qed.
 
-Lemma run_app l1 l2 a f c i a1 f1 c1 i1 a2 f2 c2 i2 :
-  run l1 a f c i a1 f1 c1 i1 -> run l2 a1 f1 c1 i1 a2 f2 c2 i2 -> run (l1 ++ l2) a f c i a2 f2 c2 i2.
+Lemma run_app l1 l2 a f c i g a1 f1 c1 i1 g1 a2 f2 c2 i2 g2 :
+  run l1 a f c i g a1 f1 c1 i1 g1 -> run l2 a1 f1 c1 i1 g1 a2 f2 c2 i2 g2 ->
+  run (l1 ++ l2) a f c i g a2 f2 c2 i2 g2.
 Proof.
   intros H1 H2 rest. rewrite toks_app, <- app_assoc, tm_app.
   eapply steps_app; [apply H1 | apply H2].
 Qed.
 
-Lemma run_one t x a f c i a' f' c' i' :
-  (forall rest, Lex (mkLexer [] (t :: rest) a f c i) = LexTok x (mkLexer [] rest a' f' c' i')) ->
-  run [P1 t x] a f c i a' f' c' i'.
+Lemma run_one t x a f c i g a' f' c' i' g' :
+  (forall rest, Lex (mkLx [] (t :: rest) a f c i g) = LexTok x (mkLx [] rest a' f' c' i' g')) ->
+  run [P1 t x] a f c i g a' f' c' i' g'.
 Proof. intros H rest. apply steps_one. apply H. Qed.
 
-Lemma run_cons t x l a f c i a1 f1 c1 i1 a2 f2 c2 i2 :
-  (forall rest, Lex (mkLexer [] (t :: rest) a f c i) = LexTok x (mkLexer [] rest a1 f1 c1 i1)) ->
-  run l a1 f1 c1 i1 a2 f2 c2 i2 -> run (P1 t x :: l) a f c i a2 f2 c2 i2.
-Proof. intros H1 H2. apply (run_app [P1 t x] l) with a1 f1 c1 i1; [apply run_one; exact H1 | exact H2]. Qed.
+Lemma run_cons t x l a f c i g a1 f1 c1 i1 g1 a2 f2 c2 i2 g2 :
+  (forall rest, Lex (mkLx [] (t :: rest) a f c i g) = LexTok x (mkLx [] rest a1 f1 c1 i1 g1)) ->
+  run l a1 f1 c1 i1 g1 a2 f2 c2 i2 g2 -> run (P1 t x :: l) a f c i g a2 f2 c2 i2 g2.
+Proof.
+  intros H1 H2. apply (run_app [P1 t x] l) with a1 f1 c1 i1 g1; [apply run_one; exact H1 | exact H2].
+Qed.
 
-Lemma run_snoc t x l a f c i a1 f1 c1 i1 a2 f2 c2 i2 :
-  run l a f c i a1 f1 c1 i1 ->
-  (forall rest, Lex (mkLexer [] (t :: rest) a1 f1 c1 i1) = LexTok x (mkLexer [] rest a2 f2 c2 i2)) ->
-  run (l ++ [P1 t x]) a f c i a2 f2 c2 i2.
-Proof. intros H1 H2. apply run_app with a1 f1 c1 i1; [exact H1 | apply run_one; exact H2]. Qed.
+Lemma run_snoc t x l a f c i g a1 f1 c1 i1 g1 a2 f2 c2 i2 g2 :
+  run l a f c i g a1 f1 c1 i1 g1 ->
+  (forall rest, Lex (mkLx [] (t :: rest) a1 f1 c1 i1 g1) = LexTok x (mkLx [] rest a2 f2 c2 i2 g2)) ->
+  run (l ++ [P1 t x]) a f c i g a2 f2 c2 i2 g2.
+Proof. intros H1 H2. apply run_app with a1 f1 c1 i1 g1; [exact H1 | apply run_one; exact H2]. Qed.
 
 (* ---------- redirections, word lists, simple commands ---------- *)
 
@@ -55,8 +58,8 @@ Proof.
   destruct (r_fd r) as [[| d ds] |]; [discriminate | split; [discriminate | exact Hfd] | exact I].
 Qed.
 
-Lemma run_redir r a f c i :
-  redir_ok r = true -> safe f c -> run (print_redir r) a f c i false (bumpv f) (bumpv c) i.
+Lemma run_redir r a f c i g :
+  redir_ok r = true -> safe f c -> run (print_redir r) a f c i g false (bumpv f) (bumpv c) i false.
 Proof.
   intros Hr Hs rest. destruct (redir_ok_inv r Hr) as [Ht Hfd].
   destruct r as [fd o t]. unfold print_redir. cbn [r_fd r_op r_target] in *.
@@ -65,7 +68,7 @@ Proof.
     change (tm [P2 (mkTok (ds ++ rop_text o) WkPlain) tkIO_NUMBER (rop_term o); P1 t tkWORD])
       with [tkIO_NUMBER; rop_term o; tkWORD].
     cbn [toks map ptok_tok app].
-    eapply steps_cons; [apply (lex_io_number ds o _ a f c i Hne Hd) |].
+    eapply steps_cons; [apply (lex_io_number ds o _ a f c i g Hne Hd) |].
     eapply steps_cons; [apply lex_pending_rop |].
     apply steps_one. apply lex_arg; assumption.
   - change (tm [kw (rop_text o) (rop_term o); P1 t tkWORD]) with [rop_term o; tkWORD].
@@ -77,7 +80,7 @@ Qed.
 Lemma run_redirs rs : forall a f c i,
   forallb redir_ok rs = true -> safe f c ->
   exists f' c', safe f' c' /\
-    run (print_redirs rs) a f c i (match rs with [] => a | _ => false end) f' c' i.
+    run (print_redirs rs) a f c i false (match rs with [] => a | _ => false end) f' c' i false.
 Proof.
   induction rs as [| r rs IH]; intros a f c i Hok Hs.
   - exists f, c. split; [exact Hs | apply run_nil].
@@ -92,7 +95,7 @@ Qed.
 
 Lemma run_words ws : forall f c i,
   forallb arg_ok ws = true -> safe f c ->
-  exists f' c', safe f' c' /\ run (print_words ws) false f c i false f' c' i.
+  exists f' c', safe f' c' /\ run (print_words ws) false f c i false false f' c' i false.
 Proof.
   induction ws as [| w ws IH]; intros f c i Hok Hs.
   - exists f, c. split; [exact Hs | apply run_nil].
@@ -104,7 +107,7 @@ Qed.
 
 Lemma run_sitems items : forall f c i,
   forallb sitem_ok items = true -> safe f c ->
-  exists f' c', safe f' c' /\ run (flat_map print_sitem items) false f c i false f' c' i.
+  exists f' c', safe f' c' /\ run (flat_map print_sitem items) false f c i false false f' c' i false.
 Proof.
   induction items as [| x items IH]; intros f c i Hok Hs.
   - exists f, c. split; [exact Hs | apply run_nil].
@@ -116,58 +119,72 @@ Proof.
     + eapply run_app; [apply run_redir; assumption | exact Hrun].
 Qed.
 
-Lemma run_assigns assigns : forall f c i,
+(* assignment words: the lexer stays at command start and remembers the assignment *)
+Lemma run_assigns assigns : forall f c g,
   forallb assign_ok assigns = true -> assigns <> [] ->
-  run (map (fun w => P1 w tkASSIGNMENT_WORD) assigns) true f c i true (-1) (-1) i.
+  run (map (fun w => P1 w tkASSIGNMENT_WORD) assigns) true f c false g true (-1) (-1) false true.
 Proof.
-  induction assigns as [| w ws IH]; intros f c i Hok Hne; [congruence |].
+  induction assigns as [| w ws IH]; intros f c g Hok Hne; [congruence |].
   cbn [forallb] in Hok. apply andb_true_iff in Hok. destruct Hok as [Hw Hws].
   cbn [map]. destruct ws as [| w' ws'].
   - apply run_one. intro rest. apply lex_assign. exact Hw.
   - eapply run_cons; [intro rest; apply lex_assign; exact Hw | apply IH; [exact Hws | discriminate]].
 Qed.
 
-(* items of a simple command when the lexer is at command start *)
-Lemma run_items_cmdstart items : forall f c i,
-  match items with SWord w :: r => name_ok w && forallb sitem_ok r | _ => forallb sitem_ok items end = true ->
-  (safe f c \/ match items with SWord _ :: _ => True | _ => False end) ->
+(* the items of a simple command at command start, without (g = false) or after (g = true)
+   assignment words; the end flag is g when there are no items *)
+Lemma run_items_cmdstart items : forall (f c : Z) (g : bool),
+  match items with
+  | SWord w :: r => (if g then later_name_ok w else name_ok w) && forallb sitem_ok r
+  | _ => forallb sitem_ok items
+  end = true ->
+  safe f c ->
   exists f' c', safe f' c' /\
-    run (flat_map print_sitem items) true f c i (match items with [] => true | _ => false end) f' c' i.
+    run (flat_map print_sitem items) true f c false g
+        (match items with [] => true | _ => false end) f' c' false (match items with [] => g | _ => false end).
 Proof.
-  intros f c i Hok Hs. destruct items as [| [w | r] items].
-  - destruct Hs as [Hs | []].
-    exists f, c. split; [exact Hs | apply run_nil].
+  intros f c g Hok Hs. destruct items as [| [w | r] items].
+  - exists f, c. split; [exact Hs | apply run_nil].
   - apply andb_true_iff in Hok. destruct Hok as [Hw Hitems].
-    destruct (run_sitems items (-1) (-1) i Hitems safe_m1) as (f' & c' & Hs' & Hrun).
+    destruct (run_sitems items (-1) (-1) false Hitems safe_m1) as (f' & c' & Hs' & Hrun).
     exists f', c'. split; [exact Hs' |]. cbn [flat_map print_sitem].
-    eapply run_cons; [intro rest; apply lex_name; exact Hw | exact Hrun].
+    destruct g.
+    + eapply run_cons; [intro rest; apply lex_name_after_assign; exact Hw | exact Hrun].
+    + eapply run_cons; [intro rest; apply lex_name; exact Hw | exact Hrun].
   - cbn [forallb sitem_ok] in Hok. apply andb_true_iff in Hok. destruct Hok as [Hr Hitems].
-    destruct Hs as [Hs | []].
-    destruct (run_sitems items (bumpv f) (bumpv c) i Hitems (safe_bump _ _ Hs)) as (f' & c' & Hs' & Hrun).
+    destruct (run_sitems items (bumpv f) (bumpv c) false Hitems (safe_bump _ _ Hs)) as (f' & c' & Hs' & Hrun).
     exists f', c'. split; [exact Hs' |]. cbn [flat_map print_sitem].
     eapply run_app; [apply run_redir; assumption | exact Hrun].
 Qed.
 
-Lemma run_simple assigns items f c i :
+Lemma run_simple assigns items f c :
   simple_ok assigns items = true -> safe f c ->
   exists f' c', safe f' c' /\
-    run (print_cmd (CSimple assigns items)) true f c i (match items with [] => true | _ => false end) f' c' i.
+    run (print_cmd (CSimple assigns items)) true f c false false
+        (match items with [] => true | _ => false end) f' c' false
+        (match items with [] => true | _ => false end).
 Proof.
   unfold simple_ok. intros Hok Hs.
   apply andb_true_iff in Hok. destruct Hok as [Hok Hne].
   apply andb_true_iff in Hok. destruct Hok as [Hassigns Hitems].
   cbn [print_cmd]. destruct assigns as [| a0 assigns].
-  - cbn [map app]. apply run_items_cmdstart; [exact Hitems | left; exact Hs].
-  - destruct (run_items_cmdstart items (-1) (-1) i Hitems (or_introl safe_m1)) as (f' & c' & Hs' & Hrun).
+  - cbn [map app]. destruct items as [| x items]; [discriminate |].
+    destruct (run_items_cmdstart (x :: items) f c false Hitems Hs) as (f' & c' & Hs' & Hrun).
+    exists f', c'. split; [exact Hs' | exact Hrun].
+  - destruct (run_items_cmdstart items (-1) (-1) true Hitems safe_m1) as (f' & c' & Hs' & Hrun).
     exists f', c'. split; [exact Hs' |].
-    eapply run_app; [apply run_assigns; [exact Hassigns | discriminate] | exact Hrun].
+    eapply run_app; [apply run_assigns; [exact Hassigns | discriminate] |].
+    destruct items; exact Hrun.
 Qed.
 
 (* ---------- case selectors ---------- *)
 
+Lemma pattern_arg_ok p : pattern_ok p = true -> arg_ok p = true.
+Proof. intro H. apply pattern_ok_inv in H. tauto. Qed.
+
 Lemma run_pats ps : forall f c,
-  forallb name_ok ps = true -> safe f c ->
-  exists f' c', safe f' c' /\ run (print_pats ps) false f c true false f' c' true.
+  forallb pattern_ok ps = true -> safe f c ->
+  exists f' c', safe f' c' /\ run (print_pats ps) false f c true false false f' c' true false.
 Proof.
   induction ps as [| p ps IH]; intros f c Hok Hs.
   - exists f, c. split; [exact Hs | apply run_nil].
@@ -175,7 +192,7 @@ Proof.
     destruct (IH (bumpv f) (bumpv c) Hps (safe_bump _ _ Hs)) as (f' & c' & Hs' & Hrun).
     exists f', c'. split; [exact Hs' |]. cbn [print_pats].
     eapply run_cons; [intro rest; apply lex_pipe |]. cbn [negb].
-    eapply run_cons; [intro rest; apply lex_arg; [apply name_ok_arg_ok; exact Hp | exact Hs] | exact Hrun].
+    eapply run_cons; [intro rest; apply lex_arg; [apply pattern_arg_ok; exact Hp | exact Hs] | exact Hrun].
 Qed.
 
 (* the two states in which a case item can start: directly after `in`, or after `;;` *)
@@ -186,12 +203,12 @@ Lemma safe_m1_3 : safe (-1) 3.
 Proof. unfold safe. lia. Qed.
 
 Lemma run_selector lp p ps a f c :
-  name_ok p = true -> forallb name_ok ps = true -> item_entry a f c ->
-  exists f' c', safe f' c' /\ run (print_selector lp p ps) a f c true true f' c' false.
+  pattern_ok p = true -> forallb pattern_ok ps = true -> item_entry a f c ->
+  exists f' c', safe f' c' /\ run (print_selector lp p ps) a f c true false true f' c' false false.
 Proof.
   intros Hp Hps Hentry. unfold print_selector.
-  (* the state after the first pattern *)
-  assert (Hfirst : exists f1 c1, safe f1 c1 /\ run (print_lp lp ++ [P1 p tkWORD]) a f c true false f1 c1 true).
+  assert (Hfirst : exists f1 c1, safe f1 c1 /\
+            run (print_lp lp ++ [P1 p tkWORD]) a f c true false false f1 c1 true false).
   { destruct Hentry as [(-> & -> & ->) | (-> & Hs)]; destruct lp; cbn [print_lp app].
     - exists (-1), 3. split; [apply safe_m1_3 |].
       eapply run_cons; [intro rest; apply lex_lparen |]. cbn [negb].
@@ -200,9 +217,9 @@ Proof.
       apply run_one. intro rest. apply lex_first_pattern. exact Hp.
     - exists (bumpv f), (bumpv c). split; [apply safe_bump; exact Hs |].
       eapply run_cons; [intro rest; apply lex_lparen |]. cbn [negb].
-      apply run_one. intro rest. apply lex_arg; [apply name_ok_arg_ok; exact Hp | exact Hs].
+      apply run_one. intro rest. apply lex_arg; [apply pattern_arg_ok; exact Hp | exact Hs].
     - exists (-1), (-1). split; [apply safe_m1 |].
-      apply run_one. intro rest. apply lex_name. exact Hp. }
+      apply run_one. intro rest. apply lex_pattern_after_dsemi. exact Hp. }
   destruct Hfirst as (f1 & c1 & Hs1 & Hrun1).
   destruct (run_pats ps f1 c1 Hps Hs1) as (f2 & c2 & Hs2 & Hrun2).
   exists f2, c2. split; [exact Hs2 |].
@@ -220,7 +237,8 @@ Qed.
    atCommandStart is true only where the construct ends in a separator, a closing
    reserved word or `)`. *)
 Definition reads (l : list ptok) (f c : Z) (closes : bool) : Prop :=
-  exists a' f' c', safe f' c' /\ (closes = true -> a' = true) /\ run l true f c false a' f' c' false.
+  exists a' f' c' g', safe f' c' /\ (closes = true -> a' = true /\ g' = false) /\
+    run l true f c false false a' f' c' false g'.
 
 Definition G_cmd (c : cmd) : Prop := forall f c0,
   wf_cmd c = true -> faithful_cmd c = true -> safe f c0 -> reads (print_cmd c) f c0 (ends_cmd c).
@@ -230,7 +248,7 @@ Definition G_else (e : elsepart) : Prop := forall f c0,
   wf_else e = true -> faithful_else e = true -> safe f c0 -> reads (print_else e) f c0 true.
 Definition G_items (it : caseitems) : Prop := forall a f c0,
   wf_items it = true -> faithful_items it = true -> item_entry a f c0 ->
-  exists f' c', safe f' c' /\ run (print_items it) a f c0 true true f' c' false.
+  exists f' c', safe f' c' /\ run (print_items it) a f c0 true false true f' c' false false.
 Definition G_clist (l : clist) : Prop := forall f c0,
   wf_clist l = true -> faithful_clist l = true -> safe f c0 -> reads (print_clist l) f c0 (closed_clist l).
 Definition G_body (b : cbody) : Prop :=
@@ -246,21 +264,21 @@ Ltac kwstep lem := eapply run_cons; [intro; apply lem |].
 Ltac kwlast lem := eapply run_snoc; [| intro; apply lem].
 
 Lemma reads_closed l f c f' c' closes :
-  safe f' c' -> run l true f c false true f' c' false -> reads l f c closes.
-Proof. intros Hs Hr. exists true, f', c'. split; [exact Hs | split; [intros _; reflexivity | exact Hr]]. Qed.
+  safe f' c' -> run l true f c false false true f' c' false false -> reads l f c closes.
+Proof. intros Hs Hr. exists true, f', c', false. split; [exact Hs | split; [intros _; split; reflexivity | exact Hr]]. Qed.
 
 Lemma safe_2_m1 : safe 2 (-1).
 Proof. unfold safe. lia. Qed.
 
-Lemma run_bang bang f c i : safe f c ->
-  exists f' c', safe f' c' /\ run (print_bang bang) true f c i true f' c' i.
+Lemma run_bang bang f c : safe f c ->
+  exists f' c', safe f' c' /\ run (print_bang bang) true f c false false true f' c' false false.
 Proof.
   intro Hs. destruct bang; cbn [print_bang].
   - exists (-1), (-1). split; [apply safe_m1 |]. apply run_one. intro. apply lex_bang.
   - exists f, c. split; [exact Hs | apply run_nil].
 Qed.
 
-Lemma run_sep s a f c i : run [print_sep s] a f c i true f c i.
+Lemma run_sep s a f c i g : run [print_sep s] a f c i g true f c i false.
 Proof. destruct s; apply run_one; intro; [apply lex_semi | apply lex_amp]. Qed.
 
 Ltac split_b H :=
@@ -271,8 +289,9 @@ Ltac split_b H :=
 (* a list that must end at command start, then a closing reserved word *)
 Ltac use_closed IH Hwf Hcl Hfa f0 c00 Hs0 f1 c1 Hs1 Hrun1 :=
   let a1 := fresh "a1" in let Ha := fresh "Ha" in
-  destruct (IH f0 c00 Hwf Hfa Hs0) as (a1 & f1 & c1 & Hs1 & Ha & Hrun1);
-  rewrite (Ha Hcl) in Hrun1.
+  let g1 := fresh "g1" in
+  destruct (IH f0 c00 Hwf Hfa Hs0) as (a1 & f1 & c1 & g1 & Hs1 & Ha & Hrun1);
+  destruct (Ha Hcl) as [-> ->].
 
 Theorem lexer_reads_tree :
   (forall c, G_cmd c) /\ (forall k, G_compound k) /\ (forall e, G_else e) /\ (forall it, G_items it) /\
@@ -282,25 +301,25 @@ Proof.
   apply posix_mutind.
   - (* CSimple *)
     intros assigns items f c0 Hwf _ Hs. cbn [wf_cmd] in Hwf.
-    destruct (run_simple assigns items f c0 false Hwf Hs) as (f' & c' & Hs' & Hrun).
-    exists (match items with [] => true | _ => false end), f', c'.
+    destruct (run_simple assigns items f c0 Hwf Hs) as (f' & c' & Hs' & Hrun).
+    exists (match items with [] => true | _ => false end), f', c', (match items with [] => true | _ => false end).
     split; [exact Hs' |]. split; [cbn [ends_cmd]; discriminate | exact Hrun].
   - (* CCompound *)
     intros k IHk rs f c0 Hwf Hfa Hs. cbn [wf_cmd] in Hwf. apply andb_true_iff in Hwf. destruct Hwf as [Hk Hrs].
     cbn [faithful_cmd] in Hfa.
-    destruct (IHk f c0 Hk Hfa Hs) as (a1 & f1 & c1 & Hs1 & Ha1 & Hrun1). rewrite (Ha1 eq_refl) in Hrun1.
+    destruct (IHk f c0 Hk Hfa Hs) as (a1 & f1 & c1 & g1 & Hs1 & Ha1 & Hrun1). destruct (Ha1 eq_refl) as [-> ->].
     destruct (run_redirs rs true f1 c1 false Hrs Hs1) as (f2 & c2 & Hs2 & Hrun2).
-    exists (match rs with [] => true | _ => false end), f2, c2. split; [exact Hs2 |]. split.
-    + cbn [ends_cmd]. destruct rs; [reflexivity | discriminate].
+    exists (match rs with [] => true | _ => false end), f2, c2, false. split; [exact Hs2 |]. split.
+    + cbn [ends_cmd]. destruct rs; [split; reflexivity | discriminate].
     + cbn [print_cmd]. eapply run_app; [exact Hrun1 | exact Hrun2].
   - (* CFuncDef *)
     intros name body IHk rs f c0 Hwf Hfa Hs. cbn [wf_cmd] in Hwf.
     apply andb_true_iff in Hwf. destruct Hwf as [Hwf Hrs].
     apply andb_true_iff in Hwf. destruct Hwf as [Hname Hbody]. cbn [faithful_cmd] in Hfa.
-    destruct (IHk (-1) (-1) Hbody Hfa safe_m1) as (a1 & f1 & c1 & Hs1 & Ha1 & Hrun1). rewrite (Ha1 eq_refl) in Hrun1.
+    destruct (IHk (-1) (-1) Hbody Hfa safe_m1) as (a1 & f1 & c1 & g1 & Hs1 & Ha1 & Hrun1). destruct (Ha1 eq_refl) as [-> ->].
     destruct (run_redirs rs true f1 c1 false Hrs Hs1) as (f2 & c2 & Hs2 & Hrun2).
-    exists (match rs with [] => true | _ => false end), f2, c2. split; [exact Hs2 |]. split.
-    + cbn [ends_cmd]. destruct rs; [reflexivity | discriminate].
+    exists (match rs with [] => true | _ => false end), f2, c2, false. split; [exact Hs2 |]. split.
+    + cbn [ends_cmd]. destruct rs; [split; reflexivity | discriminate].
     + cbn [print_cmd]. eapply run_cons; [intro; apply lex_name; exact Hname |].
       kwstep lex_lparen. cbn [negb]. kwstep lex_rparen.
       eapply run_app; [exact Hrun1 | exact Hrun2].
@@ -312,7 +331,7 @@ Proof.
     kwstep lex_lbrace. kwlast lex_rbrace. exact Hrun1.
   - (* KSubshell *)
     intros l IH f c0 Hwf Hfa Hs. cbn [wf_compound] in Hwf. cbn [faithful_compound] in Hfa.
-    destruct (IH f c0 Hwf Hfa Hs) as (a1 & f1 & c1 & Hs1 & _ & Hrun1).
+    destruct (IH f c0 Hwf Hfa Hs) as (a1 & f1 & c1 & g1 & Hs1 & _ & Hrun1).
     apply (reads_closed _ _ _ f1 c1 _ Hs1). cbn [print_compound].
     kwstep lex_lparen. cbn [negb]. kwlast lex_rparen. exact Hrun1.
   - (* KFor *)
@@ -346,7 +365,7 @@ Proof.
     cbn [faithful_compound] in Hfa. split_b Hfa.
     use_closed IHc Hc Hfa Hb2 (-1) (-1) safe_m1 f1 c1 Hs1 Hrun1.
     use_closed IHt Ht Hb1 Hb0 (-1) (-1) safe_m1 f2 c2 Hs2 Hrun2.
-    destruct (IHe f2 c2 He Hb Hs2) as (a3 & f3 & c3 & Hs3 & Ha3 & Hrun3). rewrite (Ha3 eq_refl) in Hrun3.
+    destruct (IHe f2 c2 He Hb Hs2) as (a3 & f3 & c3 & g3 & Hs3 & Ha3 & Hrun3). destruct (Ha3 eq_refl) as [-> ->].
     apply (reads_closed _ _ _ f3 c3 _ Hs3). cbn [print_compound].
     kwstep lex_if. eapply run_app; [exact Hrun1 |]. kwstep lex_then.
     eapply run_app; [exact Hrun2 | exact Hrun3].
@@ -382,7 +401,7 @@ Proof.
     cbn [faithful_else] in Hfa. split_b Hfa.
     use_closed IHc Hc Hfa Hb2 (-1) (-1) safe_m1 f1 c1 Hs1 Hrun1.
     use_closed IHt Ht Hb1 Hb0 (-1) (-1) safe_m1 f2 c2 Hs2 Hrun2.
-    destruct (IHe f2 c2 He Hb Hs2) as (a3 & f3 & c3 & Hs3 & Ha3 & Hrun3). rewrite (Ha3 eq_refl) in Hrun3.
+    destruct (IHe f2 c2 He Hb Hs2) as (a3 & f3 & c3 & g3 & Hs3 & Ha3 & Hrun3). destruct (Ha3 eq_refl) as [-> ->].
     apply (reads_closed _ _ _ f3 c3 _ Hs3). cbn [print_else].
     kwstep lex_elif. eapply run_app; [exact Hrun1 |]. kwstep lex_then.
     eapply run_app; [exact Hrun2 | exact Hrun3].
@@ -415,7 +434,7 @@ Proof.
       eapply run_app; [exact Hrun1 |]. cbn [print_body app]. kwstep lex_semisemi. exact Hrun3.
     + cbn [faithful_items] in Hfa. apply andb_true_iff in Hfa. destruct Hfa as [Hfl Hfr].
       cbn [G_body] in IHb. cbn [wf_body] in Hbody.
-      destruct (IHb f1 c1 Hbody Hfl Hs1) as (a2 & f2 & c2 & Hs2 & _ & Hrun2).
+      destruct (IHb f1 c1 Hbody Hfl Hs1) as (a2 & f2 & c2 & g2 & Hs2 & _ & Hrun2).
       destruct (IHr true f2 c2 Hrest Hfr (or_intror (conj eq_refl Hs2))) as (f3 & c3 & Hs3 & Hrun3).
       exists f3, c3. split; [exact Hs3 |].
       eapply run_app; [exact Hrun1 |]. cbn [print_body]. eapply run_app; [exact Hrun2 |].
@@ -431,33 +450,33 @@ Proof.
     intros p IHp c IHc f c0 Hwf Hfa Hs. cbn [wf_pipe] in Hwf.
     apply andb_true_iff in Hwf. destruct Hwf as [Hp Hc].
     cbn [faithful_pipe] in Hfa. apply andb_true_iff in Hfa. destruct Hfa as [Hfp Hfc].
-    destruct (IHp f c0 Hp Hfp Hs) as (a1 & f1 & c1 & Hs1 & _ & Hrun1).
-    destruct (IHc f1 c1 Hc Hfc Hs1) as (a2 & f2 & c2 & Hs2 & Ha2 & Hrun2).
-    exists a2, f2, c2. split; [exact Hs2 |]. split; [exact Ha2 |]. cbn [print_pipe].
+    destruct (IHp f c0 Hp Hfp Hs) as (a1 & f1 & c1 & g1 & Hs1 & _ & Hrun1).
+    destruct (IHc f1 c1 Hc Hfc Hs1) as (a2 & f2 & c2 & g2 & Hs2 & Ha2 & Hrun2).
+    exists a2, f2, c2, g2. split; [exact Hs2 |]. split; [exact Ha2 |]. cbn [print_pipe].
     eapply run_app; [exact Hrun1 |]. kwstep lex_pipe. exact Hrun2.
   - (* AOne *)
     intros bang p IH f c0 Hwf Hfa Hs. cbn [wf_andor faithful_andor print_andor ends_andor] in *.
-    destruct (run_bang bang f c0 false Hs) as (f1 & c1 & Hs1 & Hrunb).
-    destruct (IH f1 c1 Hwf Hfa Hs1) as (a2 & f2 & c2 & Hs2 & Ha2 & Hrun2).
-    exists a2, f2, c2. split; [exact Hs2 |]. split; [exact Ha2 |].
+    destruct (run_bang bang f c0 Hs) as (f1 & c1 & Hs1 & Hrunb).
+    destruct (IH f1 c1 Hwf Hfa Hs1) as (a2 & f2 & c2 & g2 & Hs2 & Ha2 & Hrun2).
+    exists a2, f2, c2, g2. split; [exact Hs2 |]. split; [exact Ha2 |].
     eapply run_app; [exact Hrunb | exact Hrun2].
   - (* AAnd *)
     intros a IHa bang p IHp f c0 Hwf Hfa Hs. cbn [wf_andor] in Hwf.
     apply andb_true_iff in Hwf. destruct Hwf as [Ha Hp].
     cbn [faithful_andor] in Hfa. apply andb_true_iff in Hfa. destruct Hfa as [Hfa' Hfp].
-    destruct (IHa f c0 Ha Hfa' Hs) as (a1 & f1 & c1 & Hs1 & _ & Hrun1).
-    destruct (run_bang bang f1 c1 false Hs1) as (f2 & c2 & Hs2 & Hrunb).
-    destruct (IHp f2 c2 Hp Hfp Hs2) as (a3 & f3 & c3 & Hs3 & Ha3 & Hrun3).
-    exists a3, f3, c3. split; [exact Hs3 |]. split; [exact Ha3 |]. cbn [print_andor].
+    destruct (IHa f c0 Ha Hfa' Hs) as (a1 & f1 & c1 & g1 & Hs1 & _ & Hrun1).
+    destruct (run_bang bang f1 c1 Hs1) as (f2 & c2 & Hs2 & Hrunb).
+    destruct (IHp f2 c2 Hp Hfp Hs2) as (a3 & f3 & c3 & g3 & Hs3 & Ha3 & Hrun3).
+    exists a3, f3, c3, g3. split; [exact Hs3 |]. split; [exact Ha3 |]. cbn [print_andor].
     eapply run_app; [exact Hrun1 |]. kwstep lex_andand. eapply run_app; [exact Hrunb | exact Hrun3].
   - (* AOr *)
     intros a IHa bang p IHp f c0 Hwf Hfa Hs. cbn [wf_andor] in Hwf.
     apply andb_true_iff in Hwf. destruct Hwf as [Ha Hp].
     cbn [faithful_andor] in Hfa. apply andb_true_iff in Hfa. destruct Hfa as [Hfa' Hfp].
-    destruct (IHa f c0 Ha Hfa' Hs) as (a1 & f1 & c1 & Hs1 & _ & Hrun1).
-    destruct (run_bang bang f1 c1 false Hs1) as (f2 & c2 & Hs2 & Hrunb).
-    destruct (IHp f2 c2 Hp Hfp Hs2) as (a3 & f3 & c3 & Hs3 & Ha3 & Hrun3).
-    exists a3, f3, c3. split; [exact Hs3 |]. split; [exact Ha3 |]. cbn [print_andor].
+    destruct (IHa f c0 Ha Hfa' Hs) as (a1 & f1 & c1 & g1 & Hs1 & _ & Hrun1).
+    destruct (run_bang bang f1 c1 Hs1) as (f2 & c2 & Hs2 & Hrunb).
+    destruct (IHp f2 c2 Hp Hfp Hs2) as (a3 & f3 & c3 & g3 & Hs3 & Ha3 & Hrun3).
+    exists a3, f3, c3, g3. split; [exact Hs3 |]. split; [exact Ha3 |]. cbn [print_andor].
     eapply run_app; [exact Hrun1 |]. kwstep lex_oror. eapply run_app; [exact Hrunb | exact Hrun3].
   - (* QOne *)
     intros a IH f c0 Hwf Hfa Hs. cbn [wf_seq faithful_seq print_seq ends_seq] in *.
@@ -466,16 +485,16 @@ Proof.
     intros q IHq s a IHa f c0 Hwf Hfa Hs. cbn [wf_seq] in Hwf.
     apply andb_true_iff in Hwf. destruct Hwf as [Hq Ha].
     cbn [faithful_seq] in Hfa. apply andb_true_iff in Hfa. destruct Hfa as [Hfq Hfa'].
-    destruct (IHq f c0 Hq Hfq Hs) as (a1 & f1 & c1 & Hs1 & _ & Hrun1).
-    destruct (IHa f1 c1 Ha Hfa' Hs1) as (a2 & f2 & c2 & Hs2 & Ha2 & Hrun2).
-    exists a2, f2, c2. split; [exact Hs2 |]. split; [exact Ha2 |]. cbn [print_seq].
+    destruct (IHq f c0 Hq Hfq Hs) as (a1 & f1 & c1 & g1 & Hs1 & _ & Hrun1).
+    destruct (IHa f1 c1 Ha Hfa' Hs1) as (a2 & f2 & c2 & g2 & Hs2 & Ha2 & Hrun2).
+    exists a2, f2, c2, g2. split; [exact Hs2 |]. split; [exact Ha2 |]. cbn [print_seq].
     eapply run_app; [exact Hrun1 |].
-    apply (run_app [print_sep s] (print_andor a)) with true f1 c1 false; [apply run_sep | exact Hrun2].
+    apply (run_app [print_sep s] (print_andor a)) with true f1 c1 false false; [apply run_sep | exact Hrun2].
   - (* CL *)
     intros q IH last f c0 Hwf Hfa Hs. cbn [wf_clist] in Hwf. cbn [faithful_clist] in Hfa.
-    destruct (IH f c0 Hwf Hfa Hs) as (a1 & f1 & c1 & Hs1 & Ha1 & Hrun1).
+    destruct (IH f c0 Hwf Hfa Hs) as (a1 & f1 & c1 & g1 & Hs1 & Ha1 & Hrun1).
     destruct last as [s |]; cbn [print_clist closed_clist].
-    + exists true, f1, c1. split; [exact Hs1 |]. split; [reflexivity |].
+    + exists true, f1, c1, false. split; [exact Hs1 |]. split; [intros _; split; reflexivity |].
       eapply run_app; [exact Hrun1 | apply run_sep].
-    + exists a1, f1, c1. split; [exact Hs1 |]. split; [exact Ha1 | exact Hrun1].
+    + exists a1, f1, c1, g1. split; [exact Hs1 |]. split; [exact Ha1 | exact Hrun1].
 Qed.
